@@ -324,6 +324,10 @@ def check(ctx):
     rule_concatenate(ctx)
     rule_args(ctx)
     rule_env(ctx)
+    # align=True delegates to align(): its reindex loop and the kind reconciliation of the merged axis
+    from . import c06
+    c06.rule_align(ctx, rid='R7')
+    c06.rule_merge_cast(ctx, r8='R8', r9='R9')
     ctx.not_decided += ['slice-by-slice equality with the inputs', 'behaviour when the inputs have different *sets* of dimensions (NumPy raises)']
     ctx.trusted += ['np.array(list of arrays) stacks along a new first axis', 'np.concatenate semantics']
     return EXPLANATION
